@@ -88,7 +88,7 @@ def via_fields(t: str) -> bool:
 
 def _query_safe(s: str) -> bool:
     for ch in s:
-        if ch in "&=+%#;?~" or ch.isspace():   # '~' is the query syntax's own option prefix (reading rule)
+        if ch in "&=+%#;?" or ch.isspace():
             return False
     return True
 
@@ -105,7 +105,7 @@ def query(t: str) -> bool:
     if not sid:
         return True
     for v in sid.fields.values():
-        if v == "":
+        if v == "" or v[0] == "~":       # a LEADING '~' is the query syntax's own option prefix (reading rule)
             return True
     q = sid.as_query()
     back = Sid(query=q)
